@@ -5,6 +5,7 @@ pub mod c05;
 pub mod c09;
 pub mod c10;
 pub mod c11;
+pub mod c13;
 pub mod wrap;
 pub mod c14;
 pub mod contract;
@@ -29,6 +30,7 @@ pub fn dispatch(id: &str, args: &RunArgs) -> i32 {
         "C09" => run_prop(&wrap::C09, args),
         "C10" => run_prop(&wrap::C10, args),
         "C11" => run_prop(&wrap::C11, args),
+        "C13" => run_prop(&c13::C13, args),
         "C14" => run_prop(&c14::C14, args),
         _ => {
             eprintln!("unknown property id {id}");
